@@ -385,6 +385,13 @@ func (f *Frame) binop(ins *ssa.BinOp, st State) Term {
 		var eq Term
 		switch {
 		case isString(t):
+			// strings are values: two different strings differ in length or in some byte
+			// (instance of extensionality for this comparison; sdiff! is its Skolem witness)
+			strExt := func() {
+				d := App("sdiff!", SInt, x, y)
+				f.vc.Assume(Implies(Not(Eq(x, y)), Or(Not(Eq(StrLen(x), StrLen(y))),
+					And(Le(IntLit(0), d), Lt(d, StrLen(x)), Not(Eq(StrAt(x, d), StrAt(y, d)))))))
+			}
 			if c, ok := ins.Y.(*ssa.Const); ok && c.Value != nil {
 				eq = strEqLit(x, constantString(c))
 			} else if c, ok := ins.X.(*ssa.Const); ok && c.Value != nil {
@@ -397,9 +404,11 @@ func (f *Frame) binop(ins *ssa.BinOp, st State) Term {
 						Eq(f.w.Sorts.Elt(pa.arr, pa.off, i), f.w.Sorts.Elt(pb.arr, pb.off, i))),
 						[]Term{f.w.Sorts.Elt(pa.arr, pa.off, i)}, []Term{f.w.Sorts.Elt(pb.arr, pb.off, i)}))
 				} else {
+					strExt()
 					eq = Eq(x, y)
 				}
 			} else {
+				strExt()
 				eq = Eq(x, y)
 			}
 		case x.Sort == SBool:
